@@ -2,6 +2,7 @@ package drivers
 
 import (
 	"context"
+	"encoding/json"
 	"fmt"
 	gofs "io/fs"
 	"os"
@@ -322,6 +323,8 @@ type filterInput struct {
 	MapSeed int64      `json:"mapSeed"`
 	// Unreadable: (empty) directories that cannot be listed while the walk runs (mode 0000, walker without CAP_DAC_*)
 	Unreadable []string `json:"unreadable,omitempty"`
+	// Model: the case was enumerated by TLC from spec/FilterWalkMC.tla; what the ALGORITHM model reports for it
+	Model *filterModel `json:"model,omitempty"`
 	API        string   `json:"api"`
 	// Follow: FollowPaths of the filter; their resolution is appended to the include list (in that order)
 	Follow []string `json:"follow,omitempty"`
@@ -541,9 +544,20 @@ func runFilter(c *Ctx, caseNo int, in filterInput) (vt.Ev, error) {
 	if in.Exc == nil {
 		in.Exc = []string{}
 	}
+	var modelEv vt.Ev
+	if in.Model != nil {
+		alg := [][][]int{}
+		for _, q := range in.Model.Alg {
+			alg = append(alg, vt.P(q))
+		}
+		modelEv = vt.Ev{"alg": alg}
+	}
 	out := vt.Ev{"ev": "Filter", "case": caseNo, "tree": tree, "inc": inc, "exc": exc, "incr": incr, "mapv": mapv,
 		"rewriteUid": rewriteUid, "calls": calls, "walkErr": werr != nil, "incPats": in.Inc, "excPats": in.Exc,
 		"input": vt.Opaque(in)}
+	if modelEv != nil {
+		out["model"] = modelEv
+	}
 	return out, nil
 }
 
@@ -619,6 +633,66 @@ func filterTree(c *Ctx) model.Tree {
 }
 
 // Filter drives filtered walks (C10).
+type filterModel struct {
+	Name string   `json:"name"`
+	Alg  []string `json:"alg"`
+}
+
+// filterModelTree is the tree of spec/FilterWalkMC.tla: every path of depth <= 3 over the names a, ab; depth-3 entries are files.
+func filterModelTree(c *Ctx) model.Tree {
+	var t model.Tree
+	names := []string{"a", "ab"}
+	for _, x := range names {
+		t = append(t, model.Entry{Path: x, Type: "dir", Perm: 0755, Mtime: uniqueMtime()})
+		for _, y := range names {
+			t = append(t, model.Entry{Path: x + "/" + y, Type: "dir", Perm: 0755, Mtime: uniqueMtime()})
+			for _, z := range names {
+				e := newFile(c.Rand, genOpts{})
+				e.Path = x + "/" + y + "/" + z
+				t = append(t, e)
+			}
+		}
+	}
+	t.Sort()
+	return t
+}
+
+// filterModelCases reads the pattern lists TLC wrote for FilterWalkMC (and CopyFilterMC), with the algorithm model's output.
+func filterModelCases(c *Ctx, gen string) ([]filterInput, error) {
+	files, _ := filepath.Glob(filepath.Join(gen, "filtercase_*.ndjson"))
+	sort.Strings(files)
+	tree := filterModelTree(c)
+	var out []filterInput
+	for k, f := range files {
+		err := readLines(f, func(ln []byte) error {
+			var fc struct {
+				Name string   `json:"name"`
+				Mode string   `json:"mode"`
+				Pats []string `json:"pats"`
+				Alg  []string `json:"alg"`
+			}
+			if err := json.Unmarshal(ln, &fc); err != nil {
+				return err
+			}
+			in := filterInput{Tree: tree, API: []string{"Walk", "WalkDir"}[k%2], Model: &filterModel{Name: fc.Name, Alg: fc.Alg}}
+			if in.Model.Alg == nil {
+				in.Model.Alg = []string{}
+			}
+			if fc.Mode == "inc" {
+				in.Inc = fc.Pats
+			} else {
+				in.Exc = fc.Pats
+			}
+			out = append(out, in)
+			return nil
+		})
+		if err != nil {
+			return nil, err
+		}
+	}
+	return out, nil
+}
+
 func Filter(c *Ctx) error {
 	if c.Replay != "" {
 		in := &filterInput{}
@@ -710,6 +784,15 @@ func Filter(c *Ctx) error {
 		for k, l := range [][]string{{"z", "foo/x"}, {"**/x"}, {"*/x", "z"}} {
 			inputs = append(inputs, filterInput{Tree: ut, Inc: l, API: []string{"Walk", "WalkDir"}[k%2], Unreadable: []string{"bar", "foo/bar"}})
 		}
+	}
+	// the pattern lists TLC enumerated from spec/FilterWalkMC.tla on the model's own tree, with the algorithm model's output
+	if gen := os.Getenv("VERIF_GEN_DIR"); gen != "" {
+		mcs, err := filterModelCases(c, gen)
+		if err != nil {
+			return err
+		}
+		inputs = append(inputs, mcs...)
+		c.Stats.Note(fmt.Sprintf("%d pattern lists enumerated by TLC from FilterWalkMC, each with the algorithm model's output", len(mcs)))
 	}
 	for _, p := range single {
 		inputs = append(inputs, filterInput{Tree: full, Inc: []string{p}, API: "Walk"})
